@@ -32,7 +32,15 @@ def rule_no_catch_unwind(ctx):
     for b, s in spawns:
         fn = prog.enclosing_fn(b)
         waits = any(callee_is(callee_of(x), "std::process::Child::wait", "std::process::Child::wait_with_output") for x in fn.calls())
-        r.check(waits and fn.target == "lib", fn.id, "thread-spawn", "thread spawned only to feed the external solver", "a thread is spawned in %s: a panic in it does not abort the query" % fn.path, s.loc())
+        # the spawned closure is the feeder of a child process: it owns the child's stdin (by type), and computes no verdict
+        feeder = False
+        for fa in (callee_of(s) or {}).get("fn_args") or []:
+            clo = prog.by_target[b.target].get(fa)
+            if clo is not None and any(u["ty"] == "std::process::ChildStdin" for u in clo.upvars):
+                reach = prog.reachable_from([clo])
+                if not any(callee_matches(callee_of(x), r"sat_solver::SatSolver::solve|SolvingResult::unwrap_model") for rb in reach.values() for x in rb.calls()):
+                    feeder = True
+        r.check((waits or feeder) and fn.target == "lib", fn.id, "thread-spawn", "thread spawned only to feed the external solver", "a thread is spawned in %s: a panic in it does not abort the query" % fn.path, s.loc())
     # positive self-test of the matcher (zero-expected rule): the pattern must match the std path it is meant for
     import re
 
@@ -116,6 +124,11 @@ def rule_answer_after_solver(ctx):
                 continue
             for w in ws:
                 dom = [s for s in solver_calls if b.dominates(s, w)]
+                if not dom and solver_calls:
+                    # one write after a branch whose arms each call a solver method: every path to the write runs one of them
+                    blk = {s.bb for s in solver_calls}
+                    if w.bb not in blk and 0 not in blk and w.bb != 0 and not b.reaches(0, w.bb, avoid=blk):
+                        dom = [s for s in solver_calls if b.reaches(s.bb, w.bb)]
                 r.check(bool(dom), anchor, "write-before-solve", "answer written after %s returned" % (strip_generics(callee_name(callee_of(dom[0]))) if dom else "?"), "the writing callback is called before any solver method returned", w.loc())
             # exactly once: no path from one write to another, and no return without a write
             multi = any(b.reaches(w1.bb, w2.bb) for w1 in ws for w2 in ws)
@@ -366,14 +379,22 @@ def dispatch_table(prog, b):
                     nm = strip_generics(callee_name(t["callee"]))
                     if nm.startswith("solvers::") and nm.rsplit("::", 1)[-1].startswith("new"):
                         ctors.add(nm.rsplit("::", 2)[-2])
+                    elif t.get("dst") is not None:
+                        # a local helper returning a solver by value (`fn new_stable_solver(..) -> StableSemanticsSolver<..>`)
+                        m = re.match(r"^solvers::[a-z_0-9:]+::([A-Za-z0-9]+)<", b.local_ty(t["dst"]["l"]))
+                        tgt = prog.body_for_callee(t["callee"], b)
+                        if m and tgt is not None and tgt.target == b.target and not tgt.path.startswith("solvers::"):
+                            ctors.add(m.group(1))
             for v in vals:
                 table.setdefault(v, set()).update(ctors)
     traits = {c.get("trait") for s in b.calls() for c in [callee_of(s)] if c and c.get("trait") in SOLVER_TRAITS}
     return table, traits, wildcard
 
 
-def rule_dispatch(ctx):
+def rule_dispatch(ctx, kind=None):
+    """kind: None = all three dispatch functions; 'extension' | 'credulous' | 'skeptical' = the one of that query kind"""
     prog = ctx.prog
+    only_trait = {"extension": "solvers::specs::SingleExtensionComputer", "credulous": "solvers::specs::CredulousAcceptanceComputer", "skeptical": "solvers::specs::SkepticalAcceptanceComputer"}.get(kind)
     r = ctx.rule(
         "dispatch-table",
         "each (query, semantics) pair is dispatched to the solver type the property names (DC-PR through the complete solver, DS-CO and "
@@ -389,6 +410,8 @@ def rule_dispatch(ctx):
                 continue
             tr = next(iter(traits))
             seen_traits[tr] = b
+            if only_trait is not None and tr != only_trait:
+                continue
             oracle = DISPATCH_ORACLE[tr]
             r.check(not wildcard, anchor, "wildcard-arm", "the match on the semantics has no wildcard arm", "a wildcard arm can swallow a semantics", b.loc())
             for sem, want in sorted(oracle.items()):
@@ -421,6 +444,8 @@ def rule_dispatch(ctx):
                 if any(called.values()):
                     found = True
                     for qn, tr in QUERY_ORACLE.items():
+                        if only_trait is not None and tr != only_trait:
+                            continue
                         r.check(called.get(qn) == {tr}, "%s|%s|%s" % (t, b.path, qn), "got=%s" % sorted(called.get(qn, [])), "%s -> %s" % (qn, tr.rsplit("::", 1)[-1]), "query %s is answered by %s" % (qn, sorted(called.get(qn, []))), sw.loc())
         r.check(found, t, "no-query-match", "the solve command matches on the query kind", loc=None)
 
